@@ -316,5 +316,125 @@ class ForkNext(Unit):
                           z3.Or(stop, failed))
 
 
-UNITS = [ForkNext]
+
+class TeeWiring(Unit):
+    """tee(instream, n, buffer_size): ONE window queue of the requested size, ONE source lock, ONE head cell (empty, no failure), ONE source iterator --
+    shared by all n forks, each built with n_forks == n and its own index; the results are Streams over exactly these forks, in order."""
+    prop = 'C10'
+    file = F
+    qual = 'tee'
+    assert_mode = 'assume'
+    canaries = (('every fork gets a window of its own', 'forks = tuple(Fork(instream, n, buffer, head, instream_lock, i) for i in range(n))', 'forks = tuple(Fork(instream, n, queue.Queue(buffer_size), head, instream_lock, i) for i in range(n))', ''),
+                ('forks told a wrong fork count', 'Fork(instream, n, buffer, head, instream_lock, i)', 'Fork(instream, n + 1, buffer, head, instream_lock, i)', ''),
+                ('window larger than requested', 'buffer = queue.Queue(buffer_size)', 'buffer = queue.Queue(buffer_size * 2)', ''))
+
+    def setup(self, ex):
+        st = St()
+        self.n, self.bs = z3.Int('n'), z3.Int('buffer_size')
+        st.assume(self.n >= 2, self.bs >= 2)
+        self.src = z3.Const('instream', Val)
+        st.env.update(instream=self.src, n=self.n, buffer_size=self.bs)
+        st.ghost['made'] = {}
+        self.IDX = z3.Int('generic_fork_index')
+        self.fork_of = z3.Function('Fork', z3.IntSort(), Val)
+        self.stream_of = z3.Function('Stream', Val, Val)
+        unit = self
+
+        def mk(kind):
+            def f(e, s, a, k, n):
+                o = Rec(e, kind)
+                s = s.fork()
+                s.ghost['made'] = dict(s.ghost['made'])
+                s.ghost['made'].setdefault(kind, []).append((o, [box(e, x) for x in a]))
+                return [('ok', s, o)]
+            return Fn(f, name=kind)
+        ex.globals['queue.Queue'] = mk('Queue')
+        ex.globals['threading.Lock'] = mk('Lock')
+        ex.globals['SimpleNamespace'] = mk('SimpleNamespace')
+        ex.globals['hasattr'] = Fn(lambda e, s, a, k, n: [('ok', s, z3.Bool('instream_is_an_iterator'))])
+        self.it = z3.Const('iter(instream)', Val)
+        ex.globals['iter'] = Fn(lambda e, s, a, k, n: [('ok', s, self.it)])
+        st.ghost['fork_args'] = None
+
+        def fork_ctor(e, s, a, k, n):
+            s = s.fork()
+            s.ghost['fork_args'] = list(a)
+            return [('ok', s, self.fork_of(a[5] if z3.is_expr(a[5]) and a[5].sort() == z3.IntSort() else z3.IntVal(-1)))]
+        ex.globals['Fork'] = Fn(fork_ctor)
+        ex.globals['Stream'] = Fn(lambda e, s, a, k, n: [('ok', s, self.stream_of(box(e, a[0])))])
+        return st
+
+    def on_comprehension(self, ex, st, e):
+        import ast as _ast
+        g = e.generators[0]
+        if len(e.generators) != 1 or g.ifs or not isinstance(g.target, _ast.Name):
+            return None
+        src = _ast.unparse(g.iter)
+        s2 = st.fork()
+        s2.env = dict(st.env)
+        if src == 'range(n)':
+            s2.env[g.target.id] = self.IDX
+        elif src == 'forks':
+            s2.env[g.target.id] = self.fork_of(self.IDX)
+        else:
+            return None
+        (k1, s3, val), = ex.ev(e.elt, s2)
+        s = st.fork()
+        s.ghost['fork_args'] = s3.ghost['fork_args']
+        s.ghost['elem:' + src] = box(ex, val)
+        return [('ok', s, z3.Const('comprehension:' + src, Val))]
+
+    def on_call(self, ex, st, e, src):
+        if src == 'tuple' and len(e.args) == 1:
+            def f(s, v):
+                return [('ok', s, v)]
+            r = ex.bind(ex.ev(e.args[0], st), f)
+            # remember which comprehension became which tuple
+            return r
+        return None
+
+    def post(self, ex, outs):
+        for k, s, p in outs:
+            if k not in ('normal', 'return'):
+                ex.oblige(s, 'exit: does not raise', False)
+                continue
+            made = s.ghost['made']
+            qs, ls, hs = made.get('Queue', []), made.get('Lock', []), made.get('SimpleNamespace', [])
+            a = s.ghost['fork_args']
+            ok = len(qs) == 1 and len(ls) == 1 and len(hs) == 1 and a is not None and len(a) == 6 and len(qs[0][1]) == 1
+            if not ok:
+                ex.oblige(s, 'exit: exactly one window queue, one source lock and one head cell are created, and forks are built from them', False)
+                continue
+            head = hs[0][0]
+            it = z3.If(z3.Bool('instream_is_an_iterator'), self.src, self.it)
+            ex.oblige(s, 'exit: one window of exactly buffer_size, one source lock, one head cell (no element, no failure), one source iterator -- the SAME ones given to every fork, each fork told n_forks == n and its own index',
+                      z3.And(qs[0][1][0] == V.intv(self.bs), z3.BoolVal(unbox_handle(ex, a[2]) is qs[0][0] and unbox_handle(ex, a[3]) is head and unbox_handle(ex, a[4]) is ls[0][0]),
+                             box(ex, a[0]) == it, box(ex, a[1]) == V.intv(self.n), box(ex, a[5]) == V.intv(self.IDX),
+                             box(ex, head.get(s, 'value')) == NONE, box(ex, head.get(s, 'exc')) == NONE))
+            ex.oblige(s, 'exit: returns the Streams over exactly these forks, fork i at position i',
+                      z3.And(s.ghost.get('elem:forks', NONE) == self.stream_of(self.fork_of(self.IDX)), s.ghost.get('elem:range(n)', NONE) == self.fork_of(self.IDX), box(ex, p) == z3.Const('comprehension:forks', Val)))
+
+
+class ForkInit(Unit):
+    prop = 'C10'
+    file = F
+    qual = 'Fork.__init__'
+    canaries = (('cursor not reset', '        self.next: TeeX | None = None', '        self.next: TeeX | None = head', ''),)
+
+    def setup(self, ex):
+        st = St()
+        self.me = Rec(ex, 'self')
+        self.P = {k: z3.Const('p_' + k, Val) for k in ('instream', 'n_forks', 'buffer', 'head', 'instream_lock', 'fork_idx')}
+        st.env.update(self=self.me, **self.P)
+        return st
+
+    def post(self, ex, outs):
+        for k, s, p in outs:
+            ok = k in ('normal', 'return')
+            g = lambda f: box(ex, self.me.get(s, f))      # noqa: E731
+            ex.oblige(s, 'exit: stores the shared objects it was given; starts with no cursor and state 0',
+                      z3.And(g('instream') == self.P['instream'], g('n_forks') == self.P['n_forks'], g('buffer') == self.P['buffer'], g('head') == self.P['head'], g('instream_lock') == self.P['instream_lock'],
+                             g('next') == NONE, g('_state') == V.intv(z3.IntVal(0))) if ok else z3.BoolVal(False))
+
+UNITS = [TeeWiring, ForkInit, ForkNext]
 SCENARIOS = [('', 'replay/scenarios/c10_first_element_deadlock.py'), ('', 'replay/scenarios/c10_source_exception.py'), ('', 'replay/scenarios/c10_first_element_vs_failure.py')]
